@@ -38,6 +38,9 @@ CORPUS = [
     "F;B;F:7;B:7;L:b:S;F:7;B:7;B:1;F;C",
     # sparse job ids: the lower-numbered job is gone and reaped, then the higher-numbered one is stopped / resumed
     "L:b:S;L:b:S;K:1;E;F:2;Z;J;B:2;J;F:2;C;J",
+    # a pipeline run for a command substitution (`export V=$(fgprobe pN)`) owns the terminal while it runs, with and without other jobs around
+    "P;E;L:b:S;P;J;L:f:S;Z;P;J;F:2;C;P",
+    "L:f:S,S;Z;P;B;P;J",
     "L:b:S;L:b:S,S;K:1;E;E;F:2;Z;J;F:2;C",     # (a background job that ends BY ITSELF right after its launch races with the prompt's poll: killed explicitly instead)
     "L:b:S;L:b:S;L:b:S;K:1;K:2;E;J;F:3;Z;J;B:3;J;K:3;E;J",
 ]
@@ -57,6 +60,9 @@ def project(c, obs):
     out = []
     for o in obs.split("|"):
         parts = o.split(";")
+        probe = []
+        if len(parts) == 5 and parts[4].startswith("own="):
+            probe = [parts.pop()]                   # the answer of a probing stage is kept as it is
         if len(parts) != 4:
             out.append(o)
             continue
@@ -83,7 +89,7 @@ def project(c, obs):
                 if live and all(s == "t" for s in live):
                     continue
             keep.append(it)
-        out.append(";".join(parts[:3] + [",".join(keep)]))
+        out.append(";".join(parts[:3] + [",".join(keep)] + probe))
     return "|".join(out)
 
 
@@ -149,20 +155,27 @@ def run_session(cicada, sb_dir, c, expected, seed, retry=True):
     return c.id, res
 
 
-def process(tier, rng, cicada):
+def process(tier, rng, cicada, corpus=None, nrandom=None):
     r = rng.fork("c07-p")
-    n = 25 if tier == "quick" else 300
+    n = (25 if tier == "quick" else 300) if nrandom is None else nrandom
     gens = []
     for k in range(n):
         g = Case("termgen", [str(r.below(1 << 62)), str(5 + r.below(21))])
         g.id = "g%d" % k
         gens.append(g)
     made = core.run_model(gens, "C07gen")
-    cases = [make_case(a, k, "corpus") for k, a in enumerate(CORPUS)]
+    cases = [make_case(a, k, "corpus") for k, a in enumerate(CORPUS if corpus is None else corpus)]
     for g in gens:
         m = made.get(g.id)
         if m and m[0] and not m[0].startswith("UN"):
-            cases.append(make_case(m[0], len(cases), "random seed=%s len=%s" % (g.fields[0], g.fields[1])))
+            acts = m[0].split(";")
+            # one generated session in three: the single-stage foreground launches that end by themselves become probes
+            if r.chance(1, 3):
+                acts = ["P" if a == "L:f:X0" or (a.startswith("L:f:X") and "," not in a and r.chance(1, 2)) else a for a in acts]
+                if "P" not in acts:
+                    # a probe first (the session starts at the prompt); the helpers behind it are renumbered
+                    acts = ["P"] + [("%s:%d" % (a[0], int(a[2:]) + 1) if a[:2] in ("K:", "T:", "U:") else a) for a in acts]
+            cases.append(make_case(";".join(acts), len(cases), "random seed=%s len=%s" % (g.fields[0], g.fields[1])))
     model = core.run_model(cases, "C07pre")
     runnable = []
     for c in cases:
